@@ -292,6 +292,28 @@ Proof.
     eapply write_visible; eassumption. }
   unfold hread. rewrite A, Es. split; exact R.
 Qed.
+
+(* 5. what "rebuild over the same memory in the child" means here: after ANY history, pickling handle k in
+   its holder and rebuilding it in process q (hstep HSend: reduce_ctype / rebuild_ctype as translated from
+   the code, registries as they are) yields a new handle, living in q, of the same type, over the SAME
+   block of the SAME owner's arena -- not a copy -- and both read the same bytes *)
+Theorem hops_rebuilt_same_storage ops s k q hk s' : run (hsys_init hsize) ops = OK s ->
+  nth_error (hs_handles s) k = Some hk -> step s (HSend k q) = OK s' ->
+  exists hn owner ob,
+    hs_handles s' = hs_handles s ++ [hn] /\ h_proc hn = q /\ h_type hn = h_type hk /\
+    h_store hk = HShared owner ob /\ h_store hn = HShared owner ob /\
+    hread s' hn = hread s' hk.
+Proof.
+  intros H Eh Hs.
+  destruct (nth_error (hs_procs s) q) as [prq|] eqn:Eq;
+    [|cbn [hstep] in Hs; rewrite Eh, Eq in Hs; discriminate].
+  pose proof (reachable_inv _ _ H) as I.
+  rewrite (send_shape _ _ _ _ _ _ I Eh Eq) in Hs. inversion Hs; subst s'. clear Hs.
+  destruct (hops_never_copy _ _ _ H (nth_error_In _ _ Eh)) as [owner [ob Es]].
+  exists (mk_handle q (h_type hk) (h_store hk)), owner, ob. cbn [hs_handles h_proc h_type h_store].
+  split; [reflexivity|]. split; [reflexivity|]. split; [reflexivity|]. split; [assumption|]. split; [assumption|].
+  unfold hread. cbn [h_store]. reflexivity.
+Qed.
 End Hops.
 
 (* ---- the registration in rebuild_ctype is what this rests on: if the reducer were registered only
